@@ -470,12 +470,27 @@ pub fn shrink_candidates(s: &BScn) -> Vec<BScn> {
                 }
             }
             for pi in 0..s.cfg.tls[ti].parts.len() {
-                for ki in 0..s.cfg.tls[ti].parts[pi].kfs.len() {
-                    push(&|c| {
-                        c.tls[ti].parts[pi].kfs.remove(ki);
-                    });
-                    push(&|c| c.tls[ti].parts[pi].kfs[ki].easing = None);
-                    push(&|c| c.tls[ti].parts[pi].kfs[ki].via_from = false);
+                let n_k = s.cfg.tls[ti].parts[pi].kfs.len();
+                if n_k > 48 {
+                    let mut len = n_k / 2;
+                    while len >= (n_k / 16).max(1) {
+                        let mut start = 0;
+                        while start + len <= n_k {
+                            push(&|c| {
+                                c.tls[ti].parts[pi].kfs.drain(start..start + len);
+                            });
+                            start += len;
+                        }
+                        len /= 2;
+                    }
+                } else {
+                    for ki in 0..n_k {
+                        push(&|c| {
+                            c.tls[ti].parts[pi].kfs.remove(ki);
+                        });
+                        push(&|c| c.tls[ti].parts[pi].kfs[ki].easing = None);
+                        push(&|c| c.tls[ti].parts[pi].kfs[ki].via_from = false);
+                    }
                 }
                 push(&|c| c.tls[ti].parts[pi].easing = 0);
                 push(&|c| c.tls[ti].parts[pi].delay = 0.0);
